@@ -3,7 +3,6 @@
 # The checks themselves always rebuild from /repo's working tree; this only pre-compiles dependencies.
 export GOFLAGS=-mod=mod GOPROXY=off GOSUMDB=off GOTOOLCHAIN=local
 cd /verif/harness || exit 1
-cp /repo/src/go.sum go.sum 2>/dev/null
 mkdir -p /verif/.run/setup
 python3 - <<'PY'
 import sys
